@@ -110,8 +110,18 @@ func (p *parser) Parse(ctx context.Context, ast *ast.Document, options *client.G
 	p.mu.Lock()
 	defer p.mu.Unlock()
 
+	// The validation rules of graphql-go follow fragment spreads recursively without remembering
+	// the fragments already visited, so a fragment that (directly or indirectly) spreads itself
+	// overflows the stack before the NoFragmentCycles rule can report it. Reject such documents first.
+	if name, found := findFragmentCycle(ast); found {
+		return nil, []error{NewErrFragmentCycle(name)}
+	}
+
 	schema := p.schemaManager.Schema()
-	validationResult := gql.ValidateDocument(schema, ast, nil)
+	validationResult, err := validateDocument(schema, ast)
+	if err != nil {
+		return nil, []error{err}
+	}
 	if !validationResult.IsValid {
 		errors := make([]error, len(validationResult.Errors))
 		for i, err := range validationResult.Errors {
@@ -164,4 +174,81 @@ func (p *parser) NewFilterFromString(collectionType string, body string) (immuta
 	defer p.mu.Unlock()
 
 	return defrap.NewFilterFromString(*p.schemaManager.Schema(), collectionType, body)
+}
+
+// findFragmentCycle reports the name of a fragment that spreads itself, directly or through
+// other fragments.
+func findFragmentCycle(doc *ast.Document) (string, bool) {
+	spreads := map[string][]string{}
+	var collect func(set *ast.SelectionSet, into *[]string)
+	collect = func(set *ast.SelectionSet, into *[]string) {
+		if set == nil {
+			return
+		}
+		for _, selection := range set.Selections {
+			switch node := selection.(type) {
+			case *ast.FragmentSpread:
+				if node.Name != nil {
+					*into = append(*into, node.Name.Value)
+				}
+			case *ast.Field:
+				collect(node.SelectionSet, into)
+			case *ast.InlineFragment:
+				collect(node.SelectionSet, into)
+			}
+		}
+	}
+	var names []string
+	for _, definition := range doc.Definitions {
+		if fragment, ok := definition.(*ast.FragmentDefinition); ok && fragment.Name != nil {
+			var list []string
+			collect(fragment.SelectionSet, &list)
+			if _, exists := spreads[fragment.Name.Value]; !exists {
+				names = append(names, fragment.Name.Value)
+			}
+			spreads[fragment.Name.Value] = append(spreads[fragment.Name.Value], list...)
+		}
+	}
+
+	const (
+		unvisited = iota
+		inProgress
+		done
+	)
+	state := map[string]int{}
+	var visit func(name string) bool
+	visit = func(name string) bool {
+		switch state[name] {
+		case inProgress:
+			return true
+		case done:
+			return false
+		}
+		state[name] = inProgress
+		for _, next := range spreads[name] {
+			if _, defined := spreads[next]; defined && visit(next) {
+				return true
+			}
+		}
+		state[name] = done
+		return false
+	}
+	for _, name := range names {
+		if visit(name) {
+			return name, true
+		}
+	}
+	return "", false
+}
+
+// validateDocument runs the validation rules of graphql-go. Some rules dereference nil on
+// malformed input (e.g. a variable definition whose type is missing), which must surface as a
+// request error and not as a panic of the caller.
+func validateDocument(schema *gql.Schema, doc *ast.Document) (res gql.ValidationResult, err error) {
+	defer func() {
+		if r := recover(); r != nil {
+			err = NewErrInvalidRequest(r)
+		}
+	}()
+	return gql.ValidateDocument(schema, doc, nil), nil
 }
